@@ -42,7 +42,7 @@ ASSUMPTIONS = [
 SHARDS = {"quick": 16, "thorough": 16}
 TIMEOUT = {"quick": 900, "thorough": 7200}
 MIN_CASES = {"quick": 3000, "thorough": 40000}
-REQUIRED_COUNTERS = ["pairing_roundtrips", "database_roundtrips", "fixtures_roundtripped", "unparsable_caches_tolerated", "crash_points_injected", "crash_points_survived", "file_ops_enumerated", "database_update_histories", "saves_after_crash_checked"]
+REQUIRED_COUNTERS = ["pairing_roundtrips", "database_roundtrips", "fixtures_roundtripped", "unparsable_caches_tolerated", "crash_points_injected", "crash_points_survived", "file_ops_enumerated", "database_update_histories", "saves_after_crash_checked", "failing_operations_injected"]
 
 
 def tmpdir():
@@ -499,7 +499,7 @@ def write_initial(path, old) -> None:
     c.save_data(path)
 
 
-def crash_case(ctx, si, old, new, crash_at, d, oplog_box) -> None:
+def crash_case(ctx, si, old, new, crash_at, d, oplog_box, fault=None) -> None:
     from aiohomekit.exceptions import ConfigLoadingError
     from vf.crashfs import Crash, CrashFS
 
@@ -514,23 +514,28 @@ def crash_case(ctx, si, old, new, crash_at, d, oplog_box) -> None:
     for alias, pd in new.items():
         c.load_pairing(alias, copy.deepcopy(pd))
     new_loaded = loaded(c)
-    fs = CrashFS(d, crash_at)
+    import errno
+
+    fs = CrashFS(d, crash_at, OSError(errno.ENOSPC, "No space left on device") if fault == "enospc" else None)
     crashed = False
     with fs:
         try:
             c.save_data(path)
         except Crash:
             crashed = True
+        except OSError:
+            # the save FAILED (disk full at this operation) and the process lives on: whatever clean-up the code does has run
+            crashed = fs.fault_raised
     if crash_at is None:
         oplog_box.append(list(fs.ops))
         return
-    ctx.case("D", si, repr(crash_at), sample={"part": "crash point", "scenario": si, "crash_at_op": crash_at[0], "when": crash_at[1], "op": list(fs.ops[crash_at[0]]) if crash_at[0] < len(fs.ops) else None}, kind="D")
-    replay = {"part": "D", "si": si, "crash_at": list(crash_at)}
+    ctx.case("D", si, repr(crash_at), fault, sample={"part": "crash point" if fault is None else "failing file operation (ENOSPC)", "scenario": si, "crash_at_op": crash_at[0], "when": crash_at[1], "op": list(fs.ops[crash_at[0]]) if crash_at[0] < len(fs.ops) else None}, kind="D" if fault is None else "D-enospc")
+    replay = {"part": "D", "si": si, "crash_at": list(crash_at), "fault": fault}
     if not crashed:
         ctx.count("crash_point_not_reached")
         return
-    ctx.count("crash_points_injected")
-    where = f"crash {crash_at[1]} op {crash_at[0]} {fs.ops[crash_at[0]] if crash_at[0] < len(fs.ops) else ''}"
+    ctx.count("crash_points_injected" if fault is None else "failing_operations_injected")
+    where = f"{'crash' if fault is None else 'ENOSPC'} {crash_at[1]} op {crash_at[0]} {fs.ops[crash_at[0]] if crash_at[0] < len(fs.ops) else ''}"
     # a fresh process starts and loads what is on disk
     c2 = make_controller()
     try:
@@ -598,6 +603,9 @@ def crash_part(ctx) -> None:
                 idx += 1
                 if ctx.mine(idx):
                     crash_case(ctx, si, old, new, pt, d, box)
+                    if pt[1] != "after":
+                        # the same operation FAILS instead (an error "after" an operation is not a failure of it)
+                        crash_case(ctx, si, old, new, pt, d, box, fault="enospc")
         ctx.exhaustive_parts["crash before/after every file operation and after byte prefixes of every write of save_data"] = True
     finally:
         shutil.rmtree(d, ignore_errors=True)
@@ -749,7 +757,7 @@ def replay(ctx, d) -> None:
             try:
                 old, new = crash_scenarios(ctx)[d["si"]]
                 ca = d["crash_at"]
-                crash_case(ctx, d["si"], old, new, (ca[0], ca[1]), t, [])
+                crash_case(ctx, d["si"], old, new, (ca[0], ca[1]), t, [], fault=d.get("fault"))
             finally:
                 shutil.rmtree(t, ignore_errors=True)
 
